@@ -192,7 +192,11 @@ def explore(run, spec):
         acc0.count('layout:' + O.layout_class(t))
         if spec.on_state is not None:
             case = {'start': sname, 'history': []}
-            spec.on_state(t, m, lambda sig, detail, case=case: acc0.violation(sig, detail, case))
+
+            def report0(sig, detail, case=case):
+                acc0.violation(sig, detail, case)
+            report0.count = acc0.count
+            spec.on_state(t, m, report0)
         frontier.append((sname, ()))
     depth_done = 0
     fixpoint = False
@@ -239,6 +243,7 @@ def replay_history(spec, case):
 
     def report(sig, detail):
         found.append((sig, detail))
+    report.count = lambda *a, **k: None
     if spec.on_state is not None and not hist:
         spec.on_state(t, m, report)
     done = []
